@@ -183,6 +183,7 @@ class AWorld:
         async def receive():
             if events:
                 ev = events.popleft()
+                req.pulls.append(req.bytes_pulled)      # bytes already held before this call
                 req.bytes_pulled += len(ev.get('body') or b'')
                 return ev
             await gone
